@@ -11,6 +11,8 @@ Model family (sizes, data, node classes and kernel assignment are drawn per conf
     zjoin  = sum(eta) * sigma                   Calc    (joins two blocks)
     xtx    = X.T @ X                            Calc    (derived from data only: no kernel may change it)
     free_sq = free ** 2                         Calc    (derived from a parameter that has no likelihood part)
+    log_mu0 = log(mu0), sqrt_free = sqrt(free), log_log_sigma = log(log_sigma)
+                                                Calc    (off the log-prob path; nan / -inf for part of the positions)
     probe_j                                     Data    (one per kernel; written by the harness' probe kernels)
 
 After every kernel of the sequence a GibbsKernel of the harness ("probe") copies every stored value and every
@@ -73,8 +75,14 @@ def build_model(cfg):
     zjoin = lsl.Calc(lambda e, s: jnp.sum(e) * s, eta, sigma, _name="zjoin")
     xtx = lsl.Calc(lambda X: X.T @ X, Xn, _name="xtx")
     free_sq = lsl.Calc(lambda f: f ** 2, free, _name="free_sq")
+    # cached derived nodes that are NOT upstream of the log-probability and become non-finite for part of the positions
+    # (nan for a negative argument, -inf at 0): they must be carried like any other derived quantity - after an accepted
+    # move they hold nan / -inf exactly when the recomputation from the stored parameters does
+    log_mu0 = lsl.Calc(jnp.log, mu0, _name="log_mu0")
+    sqrt_free = lsl.Calc(jnp.sqrt, free, _name="sqrt_free")
+    log_log_sigma = lsl.Calc(jnp.log, log_sigma, _name="log_log_sigma")
     gb = lsl.GraphBuilder()
-    gb.add(y, beta, mu0, log_sigma, log_tau, free, eta_sq, zjoin, xtx, free_sq)
+    gb.add(y, beta, mu0, log_sigma, log_tau, free, eta_sq, zjoin, xtx, free_sq, log_mu0, sqrt_free, log_log_sigma)
     return gb, lsl
 
 
@@ -278,9 +286,15 @@ def check_case(case):
             if kinds[nm] == "C":
                 ref = np.ravel(np.asarray(model.nodes[nm].value, dtype=np.float32))
                 got = get(post, nm)
-                if not np.allclose(got, ref, rtol=RTOL, atol=ATOL, equal_nan=True):
-                    i = int(np.argmax(np.abs(got - ref)))
+                if not np.allclose(got, ref, rtol=RTOL, atol=ATOL, equal_nan=True):     # nan must be nan, inf must be inf
+                    dif = np.abs(got - ref)
+                    i = int(np.argmax(np.where(np.isnan(dif), np.inf, dif)))
                     return (f"{where}: stored {nm}[{i}] = {got[i]!r}, recomputed from the stored parameter values it is {ref[i]!r}")
+        nf = [nm for nm in tracked if kinds[nm] == "C" and not np.isfinite(get(post, nm)).all()]
+        if nf:
+            case["nonfinite_states"] = case.get("nonfinite_states", 0) + 1
+            if b["kind"] in MH_TYPE and s["moved"] and any(not same(get(pre, nm), get(post, nm)) for nm in nf):
+                case["nonfinite_accepts"] = case.get("nonfinite_accepts", 0) + 1
         # deterministic Gibbs write from the state the predecessor left
         if b["kind"] == "gibbs":
             em = np.float32(np.mean(get(pre, "eta")))
@@ -415,6 +429,8 @@ def histogram(ctx, c):
     for ety, _ in c["cfg"]["epochs"]:
         ctx.hist("F.epoch." + ety)
     ctx.hist("F.nuts_transitions_with_nonzero_error_code", c.get("nuts_flagged", 0))
+    ctx.hist("F.states_with_nonfinite_derived_node", c.get("nonfinite_states", 0))
+    ctx.hist("F.accepted_mh_type_moves_into_nonfinite_derived_node", c.get("nonfinite_accepts", 0))
     for s in c["fsteps"]:
         k = c["fkernels"][s["kernel"]]
         ctx.hist(f"F.transition.{k['kind']}." + ("moved" if s["moved"] else "rejected"))
